@@ -189,6 +189,10 @@ WfAttrOwner(m) == \A i \in DOMAIN m.feats : \A k \in DOMAIN m.feats[i].attrs :
 WfCards(m)  == \A j \in DOMAIN m.rels :
                   LET r == m.rels[j] IN 0 <= r.lo /\ (r.hi = Star \/ (r.lo <= r.hi /\ r.hi <= NKids(r)))
 
+\* third-party documents may carry an upper bound above the number of children (FaMa <cardinality max="3"> over one child)
+WfCardsOver(m) == \A j \in DOMAIN m.rels :
+                     LET r == m.rels[j] IN 0 <= r.lo /\ (r.hi = Star \/ r.lo <= r.hi)
+
 WellFormedTree(m) == /\ WfRoot(m) /\ WfUnique(m) /\ WfChildParent(m) /\ WfRootNoHolder(m)
                      /\ WfRelParent(m) /\ WfNonEmpty(m) /\ WfKidsKnown(m) /\ WfAttrOwner(m)
 
